@@ -13,10 +13,22 @@ use std::time::Duration;
 
 use anyhow::Context;
 use anyhow::Result;
+#[cfg(not(feature = "verif_sim"))]
 use subprocess::Exec;
+#[cfg(feature = "verif_sim")]
+use crate::verif_sim::Exec;
+#[cfg(not(feature = "verif_sim"))]
 use subprocess::ExitStatus;
+#[cfg(feature = "verif_sim")]
+use crate::verif_sim::ExitStatus;
+#[cfg(not(feature = "verif_sim"))]
 use subprocess::NullFile;
+#[cfg(feature = "verif_sim")]
+use crate::verif_sim::NullFile;
+#[cfg(not(feature = "verif_sim"))]
 use subprocess::Redirection;
+#[cfg(feature = "verif_sim")]
+use crate::verif_sim::Redirection;
 use tempfile::tempfile_in;
 use tracing::debug;
 use tracing::debug_span;
